@@ -11,19 +11,44 @@ open Spydr.Verilog
 
 /-! ### the views of ALL modules of a hierarchical file with assigns -/
 
+/-- the module parameters a written definition comes back with: the written ones, a repeated key keeps its first value -/
+def paramsOf (W : Text.WDef) : Params := mergeParams [] ((astParams W).getD [])
+
+/-- the written syntax of a primitive: ports (a port without direction keeps `.undef`: it is printed with the comment),
+    attributes, module parameters -/
+def astLeafXU (r : Text.WDef) : Option WLeafX :=
+  match astLeafU r, astParams r with
+  | some lf, some ps => some ⟨lf, r.attrs.getD [], ps⟩
+  | _, _ => none
+
+/-- the module the parser returns for it -/
+def inoutifyX (lf : WLeafX) : WLeafX := ⟨inoutify lf.base, lf.attrs, lf.params⟩
+
+theorem astLeafXU_spec (r : Text.WDef) (lf : WLeafX) (h : astLeafXU r = some lf) :
+    astLeafU r = some lf.base ∧ lf.attrs = r.attrs.getD [] ∧ astParams r = some lf.params := by
+  unfold astLeafXU at h
+  cases h1 : astLeafU r with
+  | none => simp [h1] at h
+  | some b =>
+    cases h2 : astParams r with
+    | none => simp [h1, h2] at h
+    | some ps => simp only [h1, h2, Option.some.injEq] at h; rw [← h]; exact ⟨rfl, rfl, rfl⟩
+
+/-- every primitive declared so far shows its interface, its attributes and its parameters -/
+def DoneLX (defs : List Def) (Rl : List Text.WDef) : Prop :=
+  ∀ r ∈ Rl, ∃ L ∈ defs, L.name = r.name ∧ L.lib = some "hdi_primitives" ∧ ifaceD L = ifaceT r ∧
+    L.attrs.getD [] = r.attrs.getD [] ∧ L.params = paramsOf r
+
 /-- the syntax the writer prints for a definition written after the top: a `celldefine` module for a primitive, a module
     for anything else -/
 def astAnyA (n : Text.WNet) (r : Text.WDef) : Option WAnyA :=
-  if r.lib == "hdi_primitives" then (astLeafU r).map (fun lf => WAnyA.leaf (inoutify lf))
+  if r.lib == "hdi_primitives" then (astLeafXU r).map (fun lf => WAnyA.leaf (inoutifyX lf))
   else (astOfA n r).map (fun m => WAnyA.work m.toA)
 
 /-- the fragment, one module: a primitive, or a work module in `fragTop` whose assignment instances are in `asgsOK` -/
 def fragTopA (n : Text.WNet) (r : Text.WDef) : Bool := fragTop n r && asgsOK n r 0 (asgI n r)
 
 def fragAnyA (n : Text.WNet) (r : Text.WDef) : Bool := r.lib == "hdi_primitives" || fragTopA n r
-
-/-- the module parameters a written definition comes back with: the written ones, a repeated key keeps its first value -/
-def paramsOf (W : Text.WDef) : Params := mergeParams [] ((astParams W).getD [])
 
 def DoneWA (n : Text.WNet) (defs : List Def) (Ws : List Text.WDef) : Prop :=
   ∀ W ∈ Ws, ∃ D ∈ defs, D.name = W.name ∧ viewD D = viewTA n W ∧ D.lib = some "work" ∧ D.params = paramsOf W
@@ -50,7 +75,7 @@ theorem astAnyA_name (n : Text.WNet) (r : Text.WDef) (M : WAnyA) (h : astAnyA n 
   · simp only [Option.map_eq_some_iff] at h
     obtain ⟨lf, hlf, e⟩ := h
     rw [← e]
-    exact (astLeafU_iface r lf hlf).1
+    exact (astLeafU_iface r lf.base (astLeafXU_spec r lf hlf).1).1
   · simp only [Option.map_eq_some_iff] at h
     obtain ⟨m, hm, e⟩ := h
     rw [← e]
@@ -60,10 +85,10 @@ theorem astAnyA_name (n : Text.WNet) (r : Text.WDef) (M : WAnyA) (h : astAnyA n 
     padding of instance rows -/
 theorem done_padA (n : Text.WNet) (defs : List Def) (nm : String) (D L : Def) (ops : List (Nat × Nat)) (extra : List Def)
     (Ws Rl : List Text.WDef) (hfull : FullT defs) (hL : L ∈ defs) (hLn : L.name = nm)
-    (hops : ∀ op ∈ ops, op.1 < L.ports.length) (hdw : DoneWA n defs Ws) (hdl : DoneL defs Rl)
+    (hops : ∀ op ∈ ops, op.1 < L.ports.length) (hdw : DoneWA n defs Ws) (hdl : DoneLX defs Rl)
     (hnw : ∀ W ∈ Ws, W.name ≠ nm) (hnl : ∀ x ∈ Rl, x.name ≠ nm) :
     DoneWA n (defs.map (fun x => if x.name == nm then D else padOpsD x nm ops) ++ extra) Ws ∧
-    DoneL (defs.map (fun x => if x.name == nm then D else padOpsD x nm ops) ++ extra) Rl := by
+    DoneLX (defs.map (fun x => if x.name == nm then D else padOpsD x nm ops) ++ extra) Rl := by
   constructor
   · intro W hW
     obtain ⟨D0, hD0, e1, e2, e3, e4⟩ := hdw W hW
@@ -72,16 +97,16 @@ theorem done_padA (n : Text.WNet) (defs : List Def) (nm : String) (D L : Def) (o
     rw [viewD_padOps D0 nm L.ports.length ops (fun i hi e => hfull L hL D0 hD0 i hi (e.trans hLn.symm)) hops]
     exact e2
   · intro x hx
-    obtain ⟨L0, hL0, e1, e2, e3⟩ := hdl x hx
+    obtain ⟨L0, hL0, e1, e2, e3, e4, e5⟩ := hdl x hx
     have hne : L0.name ≠ nm := by rw [e1]; exact hnl x hx
-    exact ⟨padOpsD L0 nm ops, List.mem_append_left _ (maptbl_other defs nm D ops L0 hL0 hne), e1, e2, e3⟩
+    exact ⟨padOpsD L0 nm ops, List.mem_append_left _ (maptbl_other defs nm D ops L0 hL0 hne), e1, e2, e3, e4, e5⟩
 /-- a work module declared late, on the table (pure) -/
 theorem hier_tbl_workA (n : Text.WNet) (t : String) (defs : List Def) (nx : Nat) (r : Text.WDef) (m : WModPA)
     (tbl' : List Def) (n' : Nat) (Ws Rl : List Text.WDef) (hfull : FullT defs) (hleaf : LeafInv n defs)
     (hstub : ∀ D ∈ defs, StubOK D) (hfrag : fragTopA n r = true) (hm : astOfA n r = some m)
     (hstep : lateStepA defs nx t (.work m.toA) = some (tbl', n'))
-    (hdw : DoneWA n defs Ws) (hdl : DoneL defs Rl) (hnw : ∀ W ∈ Ws, W.name ≠ r.name) (hnl : ∀ x ∈ Rl, x.name ≠ r.name) :
-    LeafInv n tbl' ∧ (∀ D ∈ tbl', StubOK D) ∧ DoneWA n tbl' (r :: Ws) ∧ DoneL tbl' Rl := by
+    (hdw : DoneWA n defs Ws) (hdl : DoneLX defs Rl) (hnw : ∀ W ∈ Ws, W.name ≠ r.name) (hnl : ∀ x ∈ Rl, x.name ≠ r.name) :
+    LeafInv n tbl' ∧ (∀ D ∈ tbl', StubOK D) ∧ DoneWA n tbl' (r :: Ws) ∧ DoneLX tbl' Rl := by
   obtain ⟨hMn, _, hMp⟩ := astOfA_name n r m hm
   have hfr : fragTop n r = true ∧ asgsOK n r 0 (asgI n r) = true := by
     simpa [fragTopA] using hfrag
@@ -134,30 +159,42 @@ theorem hier_tbl_workA (n : Text.WNet) (t : String) (defs : List Def) (nx : Nat)
         · exact p1 W e
 
 /-- a primitive declared late, on the table (pure) -/
-theorem hier_tbl_leafA (n : Text.WNet) (t : String) (defs : List Def) (nx : Nat) (r : Text.WDef) (lfU : WLeaf)
+theorem hier_tbl_leafA (n : Text.WNet) (t : String) (defs : List Def) (nx : Nat) (r : Text.WDef) (lfU : WLeafX)
     (tbl' : List Def) (n' : Nat) (Ws Rl : List Text.WDef) (hfull : FullT defs) (hleaf : LeafInv n defs)
-    (hstub : ∀ D ∈ defs, StubOK D) (ha : astLeafU r = some lfU)
-    (hstep : lateStepA defs nx t (.leaf (inoutify lfU)) = some (tbl', n'))
-    (hdw : DoneWA n defs Ws) (hdl : DoneL defs Rl) (hnw : ∀ W ∈ Ws, W.name ≠ r.name) (hnl : ∀ x ∈ Rl, x.name ≠ r.name) :
-    LeafInv n tbl' ∧ (∀ D ∈ tbl', StubOK D) ∧ DoneWA n tbl' Ws ∧ DoneL tbl' (r :: Rl) := by
-  obtain ⟨hMn, hifc⟩ := astLeafU_iface r lfU ha
-  generalize inoutify lfU = lf at hstep hMn hifc
+    (hstub : ∀ D ∈ defs, StubOK D) (ha : astLeafXU r = some lfU)
+    (hstep : lateStepA defs nx t (.leaf (inoutifyX lfU)) = some (tbl', n'))
+    (hdw : DoneWA n defs Ws) (hdl : DoneLX defs Rl) (hnw : ∀ W ∈ Ws, W.name ≠ r.name) (hnl : ∀ x ∈ Rl, x.name ≠ r.name) :
+    LeafInv n tbl' ∧ (∀ D ∈ tbl', StubOK D) ∧ DoneWA n tbl' Ws ∧ DoneLX tbl' (r :: Rl) := by
+  obtain ⟨hU, hat, hpar⟩ := astLeafXU_spec r lfU ha
+  obtain ⟨hMn, hifc⟩ := astLeafU_iface r lfU.base hU
+  generalize hlf : inoutifyX lfU = lf at hstep
+  have hlfb : lf.base = inoutify lfU.base := by rw [← hlf]; rfl
+  have hlfa : lf.attrs = lfU.attrs := by rw [← hlf]; rfl
+  have hlfp : lf.params = lfU.params := by rw [← hlf]; rfl
+  rw [← hlfb] at hMn hifc
   unfold lateStepA at hstep
   simp only [WAnyA.name] at hstep
-  cases hf : defs.find? (fun d => d.name == lf.name) with
+  cases hf : defs.find? (fun d => d.name == lf.base.name) with
   | none => simp [hf] at hstep
   | some L =>
     simp only [hf] at hstep
     have hLm := List.mem_of_find?_eq_some hf
-    have hLn : L.name = lf.name := by simpa using List.find?_some hf
-    cases hb : buildLeaf L nx lf.ports with
+    have hLn : L.name = lf.base.name := by simpa using List.find?_some hf
+    cases hb : buildLeafX L nx lf with
     | none => simp [hb] at hstep
     | some rr =>
       obtain ⟨L', n1, ops⟩ := rr
       simp only [hb, Option.some.injEq, Prod.mk.injEq] at hstep
       obtain ⟨e1, _⟩ := hstep
-      obtain ⟨b1, b2, b3, b4⟩ := buildLeaf_bound L nx lf.ports L' n1 ops hb
-      obtain ⟨c1, c2⟩ := buildLeaf_iface L nx lf.ports L' n1 ops hb (fun P hP => ((hstub L hLm b2).2.2.2 P hP).1)
+      have hlibL : L.lib = none := by
+        unfold buildLeafX at hb
+        split at hb
+        · cases hb0 : buildLeaf { L with params := mergeParams L.params lf.params } nx lf.base.ports with
+          | none => simp [hb0] at hb
+          | some r0 => exact (buildLeaf_bound _ nx lf.base.ports r0.1 r0.2.1 r0.2.2 hb0).2.1
+        · cases hb
+      obtain ⟨sc, _, sa, sp⟩ := hstub L hLm hlibL
+      obtain ⟨b1, b2, b3, b4, c1, c2, c3, c4⟩ := buildLeafX_facts L nx lf L' n1 ops hb (fun P hP => (sp P hP).1) sa
       rw [hMn] at e1 hLn
       obtain ⟨p1, p2⟩ := done_padA n defs r.name L' L ops [] Ws Rl hfull hLm hLn b1 hdw hdl hnw hnl
       simp only [List.append_nil] at p1 p2
@@ -178,7 +215,8 @@ theorem hier_tbl_leafA (n : Text.WNet) (t : String) (defs : List Def) (nx : Nat)
       · intro x hx
         rcases List.mem_cons.mp hx with e | e
         · rw [e]
-          exact ⟨L', maptbl_self defs r.name L' ops L hLm hLn, b4.trans hLn, c2, c1.trans hifc⟩
+          exact ⟨L', maptbl_self defs r.name L' ops L hLm hLn, b4.trans hLn, c2, c1.trans hifc,
+            by rw [c3, hlfa, hat], by rw [c4, hlfp]; unfold paramsOf; rw [hpar]; rfl⟩
         · exact p2 x e
 /-- **hier_foldA.**  The later modules of a hierarchical file, one after the other: the run succeeds, and at the end every
     work module shows the view and every primitive the interface of its definition in the netlist. -/
@@ -186,10 +224,10 @@ theorem hier_foldA (n : Text.WNet) (t : String) : ∀ (Rs : List Text.WDef) (Ms 
     (Ws Rl : List Text.WDef), Rs.mapM (astAnyA n) = some Ms → (∀ r ∈ Rs, fragAnyA n r = true) → (Rs.map (·.name)).Nodup →
     (∀ r ∈ Rs, ∀ W ∈ Ws, W.name ≠ r.name) → (∀ r ∈ Rs, ∀ x ∈ Rl, x.name ≠ r.name) →
     HI n s → s.top = some t → foldLateA s.defs s.next t Ms = some (tbl', n') →
-    DoneWA n s.defs Ws → DoneL s.defs Rl →
+    DoneWA n s.defs Ws → DoneLX s.defs Rl →
     ∃ s', (Ms.map WAnyA.toModule).foldlM elabModule s = .ok s' ∧ s'.defs = tbl' ∧ s'.next = n' ∧ s'.top = some t ∧
       s'.pending = s.pending ∧
-      DoneWA n s'.defs (Ws ++ Rs.filter (fun r => !isPrim r)) ∧ DoneL s'.defs (Rl ++ Rs.filter isPrim) := by
+      DoneWA n s'.defs (Ws ++ Rs.filter (fun r => !isPrim r)) ∧ DoneLX s'.defs (Rl ++ Rs.filter isPrim) := by
   intro Rs
   induction Rs with
   | nil =>
@@ -220,7 +258,7 @@ theorem hier_foldA (n : Text.WNet) (t : String) : ∀ (Rs : List Text.WDef) (Ms 
           have hrest : ∀ x ∈ Rs, x.name ≠ r.name := fun x hx e => hnd.1 (List.mem_map.mpr ⟨x, hx, e⟩)
           -- the facts about the new table
           have hfacts : LeafInv n tbl1 ∧ (∀ D ∈ tbl1, StubOK D) ∧
-              DoneWA n tbl1 (if isPrim r then Ws else r :: Ws) ∧ DoneL tbl1 (if isPrim r then r :: Rl else Rl) := by
+              DoneWA n tbl1 (if isPrim r then Ws else r :: Ws) ∧ DoneLX tbl1 (if isPrim r then r :: Rl else Rl) := by
             have hfr := hfa r List.mem_cons_self
             unfold astAnyA at ha
             unfold fragAnyA at hfr
@@ -312,7 +350,8 @@ theorem c04_view_hierA (n : Text.WNet) (T : Text.WDef) (Rs : List Text.WDef) (m 
     (∃ D ∈ defs, D.name = T.name ∧ viewD D = viewTA n T ∧ D.lib = some "work" ∧ D.params = paramsOf T) ∧
     (∀ r ∈ Rs, isPrim r = false →
       ∃ D ∈ defs, D.name = r.name ∧ viewD D = viewTA n r ∧ D.lib = some "work" ∧ D.params = paramsOf r) ∧
-    (∀ r ∈ Rs, isPrim r = true → ∃ L ∈ defs, L.name = r.name ∧ L.lib = some "hdi_primitives" ∧ ifaceD L = ifaceT r) := by
+    (∀ r ∈ Rs, isPrim r = true → ∃ L ∈ defs, L.name = r.name ∧ L.lib = some "hdi_primitives" ∧ ifaceD L = ifaceT r ∧
+      L.attrs.getD [] = r.attrs.getD [] ∧ L.params = paramsOf r) := by
   obtain ⟨hTn, hTa, hTp⟩ := astOfA_name n T m hm
   have hfr : fragTop n T = true ∧ asgsOK n T 0 (asgI n T) = true := by simpa [fragTopA] using hfragA
   obtain ⟨hfrag, hok⟩ := hfr
@@ -489,7 +528,8 @@ theorem c04_ast_hierA (n : Text.WNet) (T : Text.WDef) (Rs : List Text.WDef) (h :
       (∃ D ∈ s.defs, D.name = T.name ∧ viewD D = viewTA n T ∧ D.lib = some "work" ∧ D.params = paramsOf T) ∧
       (∀ r ∈ Rs, isPrim r = false →
         ∃ D ∈ s.defs, D.name = r.name ∧ viewD D = viewTA n r ∧ D.lib = some "work" ∧ D.params = paramsOf r) ∧
-      (∀ r ∈ Rs, isPrim r = true → ∃ L ∈ s.defs, L.name = r.name ∧ L.lib = some "hdi_primitives" ∧ ifaceD L = ifaceT r) := by
+      (∀ r ∈ Rs, isPrim r = true → ∃ L ∈ s.defs, L.name = r.name ∧ L.lib = some "hdi_primitives" ∧ ifaceD L = ifaceT r ∧
+        L.attrs.getD [] = r.attrs.getD [] ∧ L.params = paramsOf r) := by
   unfold fragHierA at h
   simp only [Bool.and_eq_true, decide_eq_true_eq, List.all_eq_true] at h
   obtain ⟨⟨⟨⟨h1, h2⟩, h3⟩, h4⟩, h5⟩ := h
@@ -510,7 +550,7 @@ theorem c04_ast_hierA (n : Text.WNet) (T : Text.WDef) (Rs : List Text.WDef) (h :
         exact ⟨m, Ms, _, rfl, rfl, a1, rfl, rfl, a2, a3, a4⟩
 /-- non-vacuity: the three-level netlist of `exNetH` with assignment instances — a two-bit and a one-bit one in `top`
     (listed AFTER the ordinary instances: the re-read definition has them first), a one-bit one in `sub` (its assignment
-    definition is already in the table when `sub` is read); `top` and `sub` have module parameters; `BBX` is an inferred black
+    definition is already in the table when `sub` is read); `top` and `sub` have module parameters; the primitive `LUT1` has an attribute and a parameter; `BBX` is an inferred black
     box whose port has no direction (written `/* undefined port direction */ inout`, re-read INOUT) -/
 def exNetHA : Text.WNet :=
   let b (c : String) (i : Int) : Option Bit := some ⟨c, i⟩
@@ -531,7 +571,7 @@ def exNetHA : Text.WNet :=
         cables := [⟨"p", 0, 2, none, none⟩, ⟨"q", 0, 1, none, none⟩, ⟨"r", 0, 1, none, none⟩],
         insts := [⟨"SDN_VERILOG_ASSIGNMENT_1_0", "SDN_VERILOG_ASSIGNMENT_1", none, none, [[b "r" 0], [b "q" 0]]⟩,
                   ⟨"g0", "LUT1", none, none, [[b "p" 0], [b "r" 0]]⟩] },
-      { name := "LUT1", lib := "hdi_primitives", params := none, attrs := none,
+      { name := "LUT1", lib := "hdi_primitives", params := some [("INIT", some "2'h1")], attrs := some [("cell", none)],
         ports := [⟨some "I0", "IN", 0, 1, [none], none⟩, ⟨some "O", "OUT", 0, 1, [none], none⟩],
         cables := [], insts := [] },
       { name := "BBX", lib := "hdi_primitives", params := none, attrs := none,
